@@ -4,6 +4,9 @@ import os
 import sys
 import warnings
 
+if hasattr(sys, "set_int_max_str_digits"):
+    sys.set_int_max_str_digits(0)  # exact rationals of long runs exceed the 4300-digit default when handed to z3
+
 os.environ.setdefault("JAX_PLATFORMS", "cpu")
 os.environ.setdefault("OMP_NUM_THREADS", "1")
 os.environ.setdefault("TF_CPP_MIN_LOG_LEVEL", "3")
